@@ -242,6 +242,11 @@ def special_scenarios(years=common.YEARS):
         # (the N.C. form answers not-implemented in that situation, so the N.C. amount stays within the overpayment)
         over = dict(nc, **{'w-2:0.box_2': '15000.00', 'w-2:0.box_17': '9000.00', 'apply_to_estimated_tax': '99999.00'})
         out.append((y, ['1040', 'nc_d-400'], 9012, dict(base, status='Single', wages=60000, overrides=over)))
+        # an investor with hardly any wages: qualified dividends and capital gain distributions exceed taxable income before the qualified
+        # business income deduction, with section 199A dividends (Form 8995 lines 11-15 at their floor)
+        inv = {'number_1099-div': '1', '1099-div:0.belongs_to': 'taxpayer', '1099-div:0.box_1a': '30000.00', '1099-div:0.box_1b': '28000.00',
+               '1099-div:0.box_2a': '2000.00', '1099-div:0.box_5': '1500.00', 'principal_abode_us': 'yes'}
+        out.append((y, ['1040'], 9013, dict(base, status='Single', wages=1000, overrides=inv)))
         # North Carolina, married filing jointly with three children who qualify for the child tax credit (child deduction for several children)
         nck = dict(nc, number_under_18='3', number_under_6='0')
         out.append((y, ['1040', 'nc_d-400'], 9009, dict(base, status='MarriedFilingJointly', wages=95000, n_dep=3, n_u17=3, overrides=nck)))
